@@ -14,13 +14,40 @@ from .c09_terms import (Unsup, NONE, TRUE, FALSE, ELL, FULL, ZEROS, EMPTY, const
 
 BUILTINS = {"range", "zip", "enumerate", "len", "int", "float", "abs", "min", "max", "isinstance", "print", "str", "bool", "list", "tuple", "sum",
             "sorted", "set", "dict", "iter", "next", "any", "all", "round", "divmod", "repr", "locals", "ValueError", "TypeError", "getattr",
-            "hasattr", "map", "slice", "type", "id", "reversed"}
+            "hasattr", "map", "slice", "type", "id", "reversed", "globals"}
 STRUCT_CALLS = {"builtins.range", "builtins.zip", "builtins.enumerate", "itertools.repeat", "builtins.iter", "builtins.reversed"}
 DRAINERS = {"builtins.list", "builtins.tuple", "collections.deque", "builtins.sum", "builtins.sorted", "builtins.set", "builtins.max", "builtins.min",
             "builtins.any", "builtins.all"}
 PURE_NS = ("numpy.", "scipy.", "math.", "pandas.", "types.", "warnings.", "builtins.", "itertools.", "pyyeti.", "collections.", "os.", "sys.")
 UFUNC = {"numpy.add": "Add", "numpy.subtract": "Sub", "numpy.multiply": "Mult", "numpy.divide": "Div", "numpy.true_divide": "Div"}
-NOT_NONE_TAGS = ("ref", "dref", "objident", "tuple", "list", "fn", "ext", "mod", "rmod", "pool", "results", "bin", "cmp", "dictc", "lv", "alloc", "fstr", "iterd")
+# ndarray methods that numpy also offers as functions computing the same thing: x.max() is written numpy.max(x)
+ND_METHODS = {"max", "min", "sum", "mean", "var", "std", "prod", "any", "all", "argmax", "argmin", "cumsum", "cumprod", "ravel", "dot", "nonzero",
+              "transpose", "clip", "round", "conj", "trace", "squeeze", "swapaxes", "repeat", "take", "argsort", "searchsorted", "diagonal", "reshape"}
+ALIASES = {"numpy.amax": "numpy.max", "numpy.amin": "numpy.min", "numpy.abs": "numpy.absolute", "builtins.abs": "numpy.absolute",
+           "numpy.true_divide": "numpy.divide", "numpy.round_": "numpy.round", "numpy.around": "numpy.round", "numpy.product": "numpy.prod",
+           "numpy.conjugate": "numpy.conj", "numpy.concat": "numpy.concatenate"}
+# documented signatures of library routines: positional arguments after the first are named, arguments equal to the default are dropped
+_RED = (("a", "axis", "dtype", "out", "keepdims"), {"axis": ("c", "NoneType", None), "dtype": ("c", "NoneType", None), "out": ("c", "NoneType", None),
+                                                    "keepdims": ("c", "bool", False)})
+_RED2 = (("a", "axis", "out", "keepdims"), {"axis": ("c", "NoneType", None), "out": ("c", "NoneType", None), "keepdims": ("c", "bool", False)})
+_VAR = (("a", "axis", "dtype", "out", "ddof", "keepdims"), {"axis": ("c", "NoneType", None), "dtype": ("c", "NoneType", None),
+                                                            "out": ("c", "NoneType", None), "ddof": ("c", "int", 0), "keepdims": ("c", "bool", False)})
+SIGS = {"scipy.signal.lfilter": (("b", "a", "x", "axis", "zi"), {"axis": ("c", "int", -1), "zi": ("c", "NoneType", None)}),
+        "numpy.sum": _RED, "numpy.prod": _RED, "numpy.mean": _RED, "numpy.max": _RED2, "numpy.min": _RED2, "numpy.any": _RED2, "numpy.all": _RED2,
+        "numpy.var": _VAR, "numpy.std": _VAR,
+        "numpy.argmax": (("a", "axis", "out"), {"axis": ("c", "NoneType", None), "out": ("c", "NoneType", None)}),
+        "numpy.argmin": (("a", "axis", "out"), {"axis": ("c", "NoneType", None), "out": ("c", "NoneType", None)}),
+        "numpy.concatenate": (("arrays", "axis", "out"), {"axis": ("c", "int", 0), "out": ("c", "NoneType", None)}),
+        "numpy.zeros": (("shape", "dtype", "order"), {"dtype": ("ext", "numpy.float64"), "order": ("c", "str", "C")}),
+        "numpy.empty": (("shape", "dtype", "order"), {"dtype": ("ext", "numpy.float64"), "order": ("c", "str", "C")}),
+        "numpy.ones": (("shape", "dtype", "order"), {"dtype": ("ext", "numpy.float64"), "order": ("c", "str", "C")}),
+        "numpy.ravel": (("a", "order"), {"order": ("c", "str", "C")}),
+        "numpy.reshape": (("a", "shape", "order"), {"order": ("c", "str", "C")})}
+FLOAT64_DT = {("ext", "builtins.float"), ("ext", "numpy.float64"), ("ext", "numpy.double"), ("ext", "numpy.float_"), ("c", "str", "float64"),
+              ("c", "str", "f8"), ("c", "str", "d"), ("c", "str", "float"), ("c", "str", "<f8"), ("c", "str", "=f8")}
+UNROLL_MAX = 24
+NOT_NONE_TAGS = ("ref", "dref", "objident", "tuple", "list", "fn", "ext", "mod", "rmod", "pool", "results", "bin", "cmp", "dictc", "lv", "alloc", "fstr", "iterd",
+                 "globals", "comp", "partial", "closure")
 
 
 def test_dump(node):
@@ -36,6 +63,10 @@ def test_dump(node):
 def carries_fn(v):
     """a function / pool / result iterator as a value (possibly inside a literal tuple or a merged value), not as the head of a call term"""
     if is_tag(v, "fn", "pool", "poolattr", "results"):
+        return True
+    if is_tag(v, "partial"):
+        return carries_fn(v[1])
+    if is_tag(v, "closure"):
         return True
     if is_tag(v, "tuple", "list"):
         return any(carries_fn(x) for x in v[1:])
@@ -113,6 +144,7 @@ class Launch:
 class Frame:
     def __init__(self, fn, rel, depth):
         self.fn, self.rel, self.depth = fn, rel, depth
+        self.outer = None
         self.locals = {}
         self.globals_decl = set()
         self.local_names = set()
@@ -149,7 +181,7 @@ def _walk_scope(fn):
 
 def assigned_names(node):
     out = set()
-    for n in _walk_scope(node) if not isinstance(node, list) else (x for st in node for x in [st] + list(_walk_scope(st))):
+    for n in [node] + list(_walk_scope(node)) if not isinstance(node, list) else (x for st in node for x in [st] + list(_walk_scope(st))):
         if isinstance(n, ast.Name) and isinstance(n.ctx, (ast.Store, ast.Del)):
             out.add(n.id)
     return out
@@ -196,6 +228,7 @@ class Sim:
         self.depth = 0
         self.cur_node = None
         self.const_cache = {}
+        self.closures = {}
 
     # ------------------------------------------------------------------------------------------------ heap
     def new_obj(self, kind, init, shape=None):
@@ -294,7 +327,20 @@ class Sim:
             return self.content(("ref", v[1], None, ()), record)
         if v and v[0] == "c":
             return v
+        if v and v[0] == "iterd":
+            return self.comp_term(v)
         return tuple(self.snap(x, record) if isinstance(x, tuple) else x for x in v)
+
+    def comp_term(self, v):
+        """a comprehension as a value: (generic element, number of elements)"""
+        node, fr, itv = self.iterds[v[1]]
+        elem, cnt, lid = self.iter_desc(v)
+        self.frames.append(LoopFrame(-1, "comp", cnt, depth=len(self.frames)))
+        try:
+            e = self.snap(elem(("lv", len(self.frames) - 1)))
+        finally:
+            self.frames.pop()
+        return ("comp", e, cnt if cnt is not None else NONE)
 
     def subref(self, ref, items):
         _, oid, shape, sel = ref
@@ -358,10 +404,12 @@ class Sim:
             return t, True
         if is_tag(t, "tuple", "list"):
             return len(t) > 1, None
-        if is_tag(t, "fn", "ext", "mod", "rmod", "pool", "dref"):
+        if is_tag(t, "fn", "ext", "mod", "rmod", "pool", "dref", "partial", "closure"):
             return True, None
         if is_tag(t, "bool"):
             return t, True
+        if is_tag(t, "call") and t[1] == ("ext", "builtins.bool") and len(t[2]) == 1 and not t[3]:
+            return self.norm_atom(t[2][0])          # bool(x) is true exactly when x is
         return ("truth", t), True
 
     def decide_term(self, t):
@@ -485,7 +533,66 @@ class Sim:
         if isinstance(node, ast.Attribute):
             b = self.ev_const(node.value, rel)
             return self.attr_of(b, node.attr)
+        if isinstance(node, ast.Call) and not any(isinstance(a, ast.Starred) for a in node.args) and all(k.arg for k in node.keywords):
+            f = self.ev_const(node.func, rel)
+            if f == ("ext", "collections.namedtuple"):
+                a = [self.ev_const(x, rel) for x in node.args] + [self.ev_const(k.value, rel) for k in node.keywords if k.arg == "field_names"]
+                if len(a) == 2 and not [k for k in node.keywords if k.arg not in ("field_names",)]:
+                    fields = None
+                    if is_const(a[1]) and isinstance(a[1][2], str):
+                        fields = tuple(a[1][2].replace(",", " ").split())
+                    elif is_tag(a[1], "tuple", "list") and all(is_const(x) and isinstance(x[2], str) for x in a[1][1:]):
+                        fields = tuple(x[2] for x in a[1][1:])
+                    if fields is not None:
+                        return ("reccls", ast.unparse(node.args[0]), fields, (), True)
         return ("s", ast.unparse(node))
+
+    def record_class(self, rel, cd):
+        """a module-level class that only holds fields (dataclass, typing.NamedTuple): calling it makes a record of its arguments"""
+        def nm(e):
+            while isinstance(e, ast.Call):
+                e = e.func
+            return e.attr if isinstance(e, ast.Attribute) else (e.id if isinstance(e, ast.Name) else "")
+        is_nt = any(nm(b) == "NamedTuple" for b in cd.bases)
+        is_dc = any(nm(d) == "dataclass" for d in cd.decorator_list)
+        if not (is_nt or is_dc) or (cd.bases and not is_nt) or cd.keywords:
+            return ("opaquecls", cd.name)
+        fields, dfl = [], []
+        for st in cd.body:
+            if isinstance(st, ast.AnnAssign) and isinstance(st.target, ast.Name):
+                fields.append(st.target.id)
+                if st.value is not None:
+                    if isinstance(st.value, ast.Call):
+                        return ("opaquecls", cd.name)           # field(default_factory=...)
+                    dfl.append((st.target.id, self.ev_const(st.value, rel)))
+            elif isinstance(st, ast.Expr) and isinstance(st.value, ast.Constant):
+                continue
+            elif isinstance(st, ast.Pass):
+                continue
+            else:
+                return ("opaquecls", cd.name)                   # methods, __post_init__, class attributes: not a plain record
+        return ("reccls", cd.name, tuple(fields), tuple(dfl), is_nt)
+
+    def record_new(self, cls, args, kws, ordered=None):
+        _, cname, fields, dfl, is_nt = cls
+        vals = dict(dfl)
+        if len(args) > len(fields) or "**" in kws:
+            raise Unsup(f"arguments of {cname}(...)")
+        for f, a in zip(fields, args):
+            vals[f] = a
+        for k, v in kws.items():
+            if k not in fields or k in fields[:len(args)]:
+                raise Unsup(f"arguments of {cname}(...)")
+            vals[k] = v
+        if set(vals) != set(fields):
+            raise Unsup(f"arguments of {cname}(...)")
+        o = self.new_obj("dict", None)
+        for f in fields:
+            o.entries[const(f)] = vals[f]
+        o.meta["ns"] = True
+        if is_nt:
+            o.meta["order"] = fields
+        return ("dref", o.oid)
 
     def lookup_module(self, name, rel, record=True):
         mi = self.world.mods[rel]
@@ -493,6 +600,8 @@ class Sim:
             return self.read_global((rel, name), record)
         if name in mi.funcs:
             return ("fn", rel, name)
+        if name in mi.classes:
+            return self.record_class(rel, mi.classes[name])
         if name in mi.consts and mi.nassign.get(name) == 1:
             return self.module_const(rel, name)
         if name in mi.imports:
@@ -535,11 +644,18 @@ class Sim:
             mi = self.world.mods[fr.rel]
             if name in mi.proc_globals and name not in fr.globals_decl:
                 # assigned in this function without a `global` declaration: Python makes it a local, the read raises UnboundLocalError
-                self.unbound.append((self.ctx, self.cur_node, name, fr.fn.name))
+                self.unbound.append((self.ctx, self.cur_node, name, getattr(fr.fn, "name", "<lambda>")))
                 fr.globals_decl = set(fr.globals_decl) | {name}
                 return self.read_global((fr.rel, name))
-            self.unbound_locals.append((self.ctx, self.cur_node, name, fr.fn.name))
+            self.unbound_locals.append((self.ctx, self.cur_node, name, getattr(fr.fn, "name", "<lambda>")))
             return ("unboundlocal", name)
+        o = getattr(fr, "outer", None)
+        while o is not None:
+            if name in o.globals_decl:
+                break
+            if name in o.local_names:
+                return self.lookup(name, o)
+            o = getattr(o, "outer", None)
         return self.lookup_module(name, fr.rel)
 
     def bind(self, name, v, fr):
@@ -566,6 +682,10 @@ class Sim:
                 if sh is not None:
                     return sh
             return ("attr", self.snap(b), name)
+        if is_tag(b, "dref") and self.heap[b[1]].meta.get("ns"):
+            if const(name) in self.heap[b[1]].entries:
+                return self.heap[b[1]].entries[const(name)]
+            raise Unsup(f"attribute {name} of a record that has no such field on this path")
         return ("attr", self.snap(b), name)
 
     def index_items(self, sl, fr):
@@ -592,15 +712,47 @@ class Sim:
             return mkidx(self.snap(base), items)
         if is_tag(base, "dref"):
             obj = self.heap[base[1]]
-            if len(items) == 1 and items[0] in obj.entries:
+            if obj.meta.get("order") and len(items) == 1 and is_const(items[0]) and items[0][1] == "int":
+                return mkidx(("tuple",) + tuple(obj.entries[const(f)] for f in obj.meta["order"]), items)
+            if len(items) == 1 and items[0] in obj.entries and not obj.meta.get("ns"):
                 return obj.entries[items[0]]
             raise Unsup(f"dict entry {show(items[0]) if items else ''} not set on this path")
         if base == NONE:
             self.none_uses.append((self.ctx, node, "subscript of None"))
             return ("s", "<subscript of None>")
+        if is_tag(base, "globals"):
+            return self.lookup_module(self.global_key(base, items)[1], base[1])
+        if is_tag(base, "tuple", "list") and len(base) == 3 and len(items) == 1 and self.as_test(items[0]) is not None:
+            # (x, y)[test]: y when the test holds, else x
+            c = self.as_test(items[0])
+            r = self.try_decided(c)
+            if r is not None:
+                return base[2] if r else base[1]
+            if base[1] == base[2]:
+                return base[1]
+            if not carries_fn(base[1]) and not carries_fn(base[2]):
+                return ("phi", c, base[2], base[1])
+            return base[2] if self.decide_term(c) else base[1]
         if is_tag(base, "tuple", "list") and len(items) == 1 and (is_const(items[0]) or (is_slice(items[0]) and all(is_const(x) for x in items[0][1:]))):
             return mkidx(base, items)
         return mkidx(self.snap(base), items)
+
+    @staticmethod
+    def as_test(t):
+        """the term as a truth value when it can only be True / False (comparison, `not`, bool(...)); None otherwise"""
+        if is_tag(t, "cmp", "not"):
+            return t
+        if is_tag(t, "call") and t[1] == ("ext", "builtins.bool") and len(t[2]) == 1 and not t[3]:
+            return t[2][0]
+        return None
+
+    def global_key(self, base, items):
+        if len(items) != 1 or not (is_const(items[0]) and isinstance(items[0][2], str)):
+            raise Unsup("module global addressed through globals() by a computed name")
+        name = items[0][2]
+        if name not in self.world.mods[base[1]].proc_globals:
+            raise Unsup(f"module global {name} addressed through globals() under a name the analysis did not foresee")
+        return (base[1], name)
 
     def ev(self, node, fr):
         if isinstance(node, ast.Constant):
@@ -616,9 +768,13 @@ class Sim:
             base = self.ev(node.value, fr)
             return self.subscript(base, self.index_items(node.slice, fr), node)
         if isinstance(node, ast.BinOp):
-            a = self.snap(self.ev(node.left, fr))
-            b = self.snap(self.ev(node.right, fr))
-            return ("bin", type(node.op).__name__, a, b)
+            la, rb = self.ev(node.left, fr), self.ev(node.right, fr)
+            a = self.snap(la)
+            b = self.snap(rb)
+            t = ("bin", type(node.op).__name__, a, b)
+            if any(is_tag(x, "ref") and self.heap[x[1]].kind in ("array", "raw", "derived") for x in (la, rb)):
+                return self.fresh(t, kind="derived")        # arithmetic on an array yields a new array (it may be stored into later)
+            return t
         if isinstance(node, ast.UnaryOp):
             v = self.snap(self.ev(node.operand, fr))
             if isinstance(node.op, ast.Not):
@@ -687,12 +843,30 @@ class Sim:
                                   NONE if v.format_spec is None else self.snap(self.ev(v.format_spec, fr))))
             return ("fstr",) + tuple(parts)
         if isinstance(node, ast.Lambda):
-            return ("lambda", node.lineno, node.col_offset)
-        if isinstance(node, (ast.GeneratorExp, ast.ListComp)):
+            return self.closure(node, fr)
+        if isinstance(node, (ast.GeneratorExp, ast.ListComp, ast.DictComp)):
             if len(node.generators) != 1 or node.generators[0].ifs or node.generators[0].is_async:
                 raise Unsup("comprehension with several generators or a filter")
+            gen = node.generators[0]
+            itv = self.ev(gen.iter, fr)
+            els = self.finite_elems(itv)
+            if els is not None:
+                # over a literal sequence: element by element
+                out = []
+                for e in els:
+                    sub = self.comp_frame(fr, gen)
+                    self.assign_target(gen.target, e, sub)
+                    out.append((self.snap(self.ev(node.key, sub)), self.ev(node.value, sub)) if isinstance(node, ast.DictComp) else self.ev(node.elt, sub))
+                if isinstance(node, ast.DictComp):
+                    o = self.new_obj("dict", None)
+                    for k, v in out:
+                        o.entries[k] = v
+                    return ("dref", o.oid)
+                return ("list",) + tuple(out)
+            if isinstance(node, ast.DictComp):
+                raise Unsup("dict comprehension over a sequence of unknown length")
             k = len(self.iterds) + 1
-            self.iterds[k] = (node, fr)
+            self.iterds[k] = (node, fr, itv)
             return ("iterd", k)
         if isinstance(node, ast.Slice):
             return ("slice",) + tuple(NONE if p is None else self.snap(self.ev(p, fr)) for p in (node.lower, node.upper, node.step))
@@ -732,6 +906,8 @@ class Sim:
                 return self.call_value(f, args, kws, node)
             return self.call_method(recv, fx.attr, args, kws, node)
         f = self.ev(fx, fr)
+        if f == ("ext", "builtins.globals") and not args and not kws:
+            return ("globals", fr.rel)
         return self.call_value(f, args, kws, node)
 
     def _callterm(self, f, args, kws):
@@ -748,10 +924,30 @@ class Sim:
             return self.call_ext(f[1], args, kws, node)
         if is_tag(f, "poolattr"):
             return self.call_method(("pool", f[1]), f[2], args, kws, node)
+        if is_tag(f, "closure"):
+            node, dfr = self.closures[f[1]]
+            return self.call_body(node, dfr.rel, f[2], args, kws, node, outer=dfr)
+        if is_tag(f, "reccls"):
+            return self.record_new(f, args, kws)
+        if is_tag(f, "opaquecls"):
+            raise Unsup(f"instance of class {f[1]} (not a plain record: its constructor and methods are not followed)")
+        if is_tag(f, "partial"):
+            kw2 = dict(f[3])
+            kw2.update(kws)
+            return self.call_value(f[1], list(f[2]) + list(args), kw2, node)
         if is_tag(f, "phi") and carries_fn(f):
             raise Unsup("call of a function chosen by an undecided test")
         # a callable value that comes from outside (user-supplied peak / rolloff, coefficient function picked from a table): assumed pure
         return self.fresh(self._callterm(self.snap(f), args, kws))
+
+    def closure(self, node, fr):
+        """a lambda / nested def as a value: its body is followed when it is called, free names are read from the defining frame"""
+        for n in ast.walk(node):
+            if isinstance(n, (ast.Nonlocal, ast.Yield, ast.YieldFrom, ast.Await)) or (isinstance(n, ast.Global) and n is not node):
+                raise Unsup("nested function with nonlocal / global / yield")
+        k = len(self.closures) + 1
+        self.closures[k] = (node, fr)
+        return ("closure", k, getattr(node, "name", "<lambda>"))
 
     def must_inline(self, rel, q, args, kws):
         s = self.world.summary(rel, q)
@@ -771,9 +967,13 @@ class Sim:
             raise Unsup(f"function {q} not found")
         if not self.must_inline(rel, q, args, kws):
             return self.fresh(self._callterm(f, args, kws))
+        return self.call_body(fn, rel, q, args, kws, node)
+
+    def call_body(self, fn, rel, q, args, kws, node, outer=None):
         if self.depth >= self.MAXDEPTH:
             raise Unsup("helper nesting too deep")
         fr = Frame(fn, rel, self.depth + 1)
+        fr.outer = outer
         a = fn.args
         params = [x.arg for x in a.posonlyargs + a.args]
         if len(args) > len(params) and not a.vararg:
@@ -819,8 +1019,11 @@ class Sim:
         self.depth += 1
         saved = self.cur_node
         try:
-            self.exec_block(fn.body, fr)
-            ret = NONE
+            if isinstance(fn, ast.Lambda):
+                ret = self.ev(fn.body, fr)
+            else:
+                self.exec_block(fn.body, fr)
+                ret = NONE
         except _Return as r:
             ret = r.value
         finally:
@@ -831,11 +1034,55 @@ class Sim:
     def all_refs(self, v):
         return [x for x in subterms(v) if is_tag(x, "ref")]
 
+    def normalise_call(self, name, args, kws):
+        """library knowledge that does not depend on how the call is spelled: aliases, documented parameter order and defaults, float64 dtypes"""
+        name = ALIASES.get(name, name)
+        args, kws = list(args), dict(kws)
+        if name.startswith("numpy.") and "dtype" in kws and self.snap(kws["dtype"], record=False) in FLOAT64_DT:
+            kws["dtype"] = ("ext", "numpy.float64")
+        sig = SIGS.get(name)
+        if sig is not None and "**" not in kws:
+            params, dfl = sig
+            if len(args) <= len(params) and not any(params[i] in kws for i in range(len(args))):
+                first_opt = min(params.index(k) for k in dfl)
+                for i in range(len(args) - 1, first_opt - 1, -1):
+                    kws[params[i]] = args.pop()
+                # required parameters given by name
+                while len(args) < first_opt and params[len(args)] in kws:
+                    args.append(kws.pop(params[len(args)]))
+                if "dtype" in kws and name.startswith("numpy.") and self.snap(kws["dtype"], record=False) in FLOAT64_DT:
+                    kws["dtype"] = ("ext", "numpy.float64")
+                for k, d in dfl.items():
+                    if k in kws and self.snap(kws[k], record=False) == d:
+                        del kws[k]
+        return name, args, kws
+
     def call_ext(self, name, args, kws, node):
-        if name == "builtins.abs":
-            name = "numpy.absolute"
-        if name == "numpy.abs":
-            name = "numpy.absolute"
+        name, args, kws = self.normalise_call(name, args, kws)
+        if name == "builtins.dict" and "**" not in kws and (not args or (len(args) == 1 and is_tag(args[0], "dref"))):
+            o = self.new_obj("dict", None)
+            if args:
+                if self.heap[args[0][1]].meta.get("ns"):
+                    raise Unsup("dict() of a record")
+                o.entries.update(self.heap[args[0][1]].entries)
+            for k, v in kws.items():
+                o.entries[const(k)] = v
+            return ("dref", o.oid)
+        if name == "types.SimpleNamespace" and not args and "**" not in kws:
+            o = self.new_obj("dict", None)
+            for k, v in kws.items():
+                o.entries[const(k)] = v
+            o.meta["ns"] = True
+            return ("dref", o.oid)
+        if name == "functools.partial" and args and "**" not in kws:
+            return ("partial", args[0], tuple(args[1:]), tuple(sorted(kws.items())))
+        if name == "builtins.slice" and 1 <= len(args) <= 3 and not kws:
+            a = [self.snap(x) for x in args]
+            a = [NONE, a[0], NONE] if len(a) == 1 else a + [NONE] * (3 - len(a))
+            return ("slice",) + tuple(a)
+        if name == "numpy.reshape" and len(args) == 2 and not kws and is_tag(args[0], "ref") and self.heap[args[0][1]].kind == "raw" \
+                and args[0][2] is None and args[0][3] == ():
+            return self.call_method(args[0], "reshape", [args[1]], {}, node)
         if name == "multiprocessing.RawArray" or name == "multiprocessing.sharedctypes.RawArray":
             if len(args) != 2:
                 raise Unsup("RawArray arguments")
@@ -929,12 +1176,13 @@ class Sim:
     def call_method(self, recv, name, args, kws, node):
         if is_tag(recv, "pool"):
             p = self.pools[recv[1]]
-            if name in ("imap_unordered", "imap", "map"):
+            if name in ("imap_unordered", "imap", "map", "starmap"):
                 got = dict(zip(["func", "iterable", "chunksize"], args))
                 got.update(kws)
                 if "func" not in got or "iterable" not in got:
                     raise Unsup("pool.%s arguments" % name)
-                return self.launch(p, got["func"], got["iterable"], node, sync=(name == "map"), ordered=(name != "imap_unordered"))
+                return self.launch(p, got["func"], got["iterable"], node, sync=(name in ("map", "starmap")), ordered=(name != "imap_unordered"),
+                                   star=(name == "starmap"))
             if name in ("terminate", "join"):
                 self.pool_end(p, node)
                 return NONE
@@ -954,17 +1202,48 @@ class Sim:
             if name in MUT_METHODS:
                 self.store(recv, self._callterm(("attr", self.content(recv), name), args, kws), how="." + name)
                 return NONE
-            return self.fresh(self._callterm(("attr", self.snap(recv), name), args, kws))
+            return self.method_value(recv, name, args, kws, node)
+        if is_tag(recv, "dref") and self.heap[recv[1]].meta.get("ns"):
+            obj = self.heap[recv[1]]
+            if const(name) in obj.entries:
+                return self.call_value(obj.entries[const(name)], args, kws, node)
+            raise Unsup(f"method {name} of a record")
         if is_tag(recv, "dref"):
             obj = self.heap[recv[1]]
             if name == "get" and args and self.snap(args[0]) in obj.entries:
                 return obj.entries[self.snap(args[0])]
+            if name in ("items", "keys", "values") and not args and not kws:
+                return ("dictview", recv[1], name)
             return self.fresh(self._callterm(("attr", self.snap(recv), name), args, kws))
+        if is_tag(recv, "globals"):
+            if name == "get" and len(args) in (1, 2) and not kws:
+                return self.lookup_module(self.global_key(recv, (self.snap(args[0]),))[1], recv[1])
+            if name == "update" and len(args) <= 1 and "**" not in kws:
+                new = []
+                if args:
+                    if not is_tag(args[0], "dref"):
+                        raise Unsup("globals().update() with something else than a dict literal")
+                    new += list(self.heap[args[0][1]].entries.items())
+                new += [(const(k), v) for k, v in kws.items()]
+                for k, v in new:
+                    self.write_global(self.global_key(recv, (k,)), v)
+                return NONE
+            raise Unsup(f"globals().{name}()")
         if recv == NONE:
             self.none_uses.append((self.ctx, node, f"method {name} of None"))
         if is_tag(recv, "list", "tuple", "dictc") and name in ("append", "extend", "insert", "pop", "remove", "update", "add", "clear", "sort", "reverse",
                                                              "setdefault", "appendleft"):
             raise Unsup(f"container mutated through .{name}()")
+        if is_tag(recv, "c", "fstr", "dictc", "tuple", "list", "fn", "ext"):
+            return self.fresh(self._callterm(("attr", self.snap(recv), name), args, kws))
+        return self.method_value(recv, name, args, kws, node)
+
+    def method_value(self, recv, name, args, kws, node):
+        """x.max(...) of an array value is numpy.max(x, ...): one spelling for both"""
+        if name in ND_METHODS and "**" not in kws:
+            if name == "reshape" and len(args) > 1:
+                args = [("tuple",) + tuple(self.snap(a) for a in args)]
+            return self.call_ext("numpy." + name, [recv] + list(args), kws, node)
         return self.fresh(self._callterm(("attr", self.snap(recv), name), args, kws))
 
     # ------------------------------------------------------------------------------------------------ pool model
@@ -995,15 +1274,12 @@ class Sim:
             if nm in ("builtins.iter", "builtins.list", "builtins.tuple") and len(a) == 1:
                 return self.iter_desc(a[0])
         if is_tag(v, "iterd"):
-            node, fr = self.iterds[v[1]]
+            node, fr, itv = self.iterds[v[1]]
             gen = node.generators[0]
-            e, c, lid = self.iter_desc(self.ev(gen.iter, fr))
+            e, c, lid = self.iter_desc(itv)
 
             def elem(lv, node=node, fr=fr, gen=gen, e=e):
-                sub = Frame(fr.fn, fr.rel, fr.depth)
-                sub.locals = dict(fr.locals)
-                sub.globals_decl = fr.globals_decl
-                sub.local_names = set(fr.local_names) | assigned_names(gen.target)
+                sub = self.comp_frame(fr, gen)
                 self.assign_target(gen.target, e(lv), sub)
                 return self.ev(node.elt, sub)
             return elem, c, lid
@@ -1011,12 +1287,55 @@ class Sim:
             sh = self.ref_shape(v)
             cnt = sh[1] if is_tag(sh, "tuple") and len(sh) > 1 else ("call", ("ext", "builtins.len"), (self.snap(v, record=False),), ())
             return (lambda lv: self.subref(v, (lv,))), cnt, None
-        if is_tag(v, "tuple", "list"):
-            raise Unsup("loop over a literal sequence")
+        if is_tag(v, "tuple", "list", "dictview", "dref", "dictc"):
+            raise Unsup("loop over a literal sequence that is too long to be unrolled")
         sv = self.snap(v)
         return (lambda lv: mkidx(sv, (lv,))), ("call", ("ext", "builtins.len"), (sv,), ()), None
 
-    def launch(self, pool, func, iterable, node, sync, ordered):
+    def comp_frame(self, fr, gen):
+        sub = Frame(fr.fn, fr.rel, fr.depth)
+        sub.locals = dict(fr.locals)
+        sub.globals_decl = fr.globals_decl
+        sub.local_names = set(fr.local_names) | assigned_names(gen.target)
+        return sub
+
+    def finite_elems(self, v):
+        """the elements of a literal sequence (or of zip / enumerate / reversed of literal sequences); None when the length is not known"""
+        if is_tag(v, "tuple", "list"):
+            return list(v[1:]) if len(v) - 1 <= UNROLL_MAX else None
+        if is_tag(v, "dictc"):
+            return [k for k, _ in v[1]] if len(v[1]) <= UNROLL_MAX else None
+        if is_tag(v, "dref"):
+            ks = list(self.heap[v[1]].entries)
+            return ks if len(ks) <= UNROLL_MAX else None
+        if is_tag(v, "dictview"):
+            ent = list(self.heap[v[1]].entries.items())
+            if len(ent) > UNROLL_MAX:
+                return None
+            return [k if v[2] == "keys" else (x if v[2] == "values" else ("tuple", k, x)) for k, x in ent]
+        if is_tag(v, "call") and is_tag(v[1], "ext") and not v[3]:
+            nm, a = v[1][1], v[2]
+            if nm == "builtins.zip" and a:
+                parts = [self.finite_elems(x) for x in a]
+                if any(p is None for p in parts):
+                    return None          # zip stops at the shortest: every length has to be known
+                return [("tuple",) + t for t in zip(*parts)]
+            if nm == "builtins.enumerate" and len(a) in (1, 2):
+                p = self.finite_elems(a[0])
+                k0 = 0
+                if len(a) == 2:
+                    if not (is_const(a[1]) and a[1][1] == "int"):
+                        return None
+                    k0 = a[1][2]
+                return None if p is None else [("tuple", const(k0 + i), x) for i, x in enumerate(p)]
+            if nm == "builtins.reversed" and len(a) == 1:
+                p = self.finite_elems(a[0])
+                return None if p is None else p[::-1]
+            if nm in ("builtins.iter", "builtins.list", "builtins.tuple") and len(a) == 1:
+                return self.finite_elems(a[0])
+        return None
+
+    def launch(self, pool, func, iterable, node, sync, ordered, star=False):
         L = Launch(len(self.launches) + 1)
         self.launches.append(L)
         L.pid, L.func, L.node, L.ordered = pool.pid, func, node, ordered
@@ -1043,7 +1362,9 @@ class Sim:
             lv = ("lv", len(self.frames) - 1)
             L.lv = lv
             L.elem = elem(lv)
-            L.ret = self.call_value(func, [L.elem], {}, node)
+            if star and not is_tag(L.elem, "tuple", "list"):
+                raise Unsup("starmap over tasks that are not literal tuples")
+            L.ret = self.call_value(func, list(L.elem[1:]) if star else [L.elem], {}, node)
             self.frames.pop()
         finally:
             self.cur_proc, self.ctx, self.cur_node = saved
@@ -1081,6 +1402,11 @@ class Sim:
                 if len(v) - 1 != n:
                     raise Unsup("unpacking length mismatch")
                 parts = v[1:]
+            elif is_tag(v, "dref") and self.heap[v[1]].meta.get("order"):
+                o = self.heap[v[1]]
+                if len(o.meta["order"]) != n:
+                    raise Unsup("unpacking length mismatch")
+                parts = [o.entries[const(f)] for f in o.meta["order"]]
             elif is_tag(v, "ref"):
                 parts = [self.subref(v, (const(i),)) for i in range(n)]
             else:
@@ -1092,25 +1418,58 @@ class Sim:
             base = self.ev(t.value, fr)
             items = self.index_items(t.slice, fr)
             if is_tag(base, "ref"):
-                self.store(self.subref(base, items), self.snap(v))
+                dst = self.subref(base, items)
+                if is_tag(v, "iterd") and self.store_comp(dst, v):
+                    return
+                self.store(dst, self.snap(v))
             elif is_tag(base, "dref"):
                 if len(items) != 1:
                     raise Unsup("dict key")
                 self.heap[base[1]].entries[items[0]] = v
+            elif is_tag(base, "globals"):
+                self.write_global(self.global_key(base, items), v)
             elif base == NONE:
                 self.none_uses.append((self.ctx, t, "store into None"))
             elif any(is_tag(x, "unboundlocal", "oob") for x in subterms(base)):
                 pass        # already recorded: the statement raises
             elif self._undefined_root(t.value, fr) is not None:
-                self.unbound_locals.append((self.ctx, t, self._undefined_root(t.value, fr), fr.fn.name))      # NameError
+                self.unbound_locals.append((self.ctx, t, self._undefined_root(t.value, fr), getattr(fr.fn, "name", "<lambda>")))      # NameError
             else:
                 raise Unsup(f"store into `{ast.unparse(t.value)}` whose value is not a tracked object")
         elif isinstance(t, ast.Attribute):
+            base = self.ev(t.value, fr)
+            if is_tag(base, "dref") and self.heap[base[1]].meta.get("ns") and not self.heap[base[1]].meta.get("order") and \
+                    self.heap[base[1]].born_ctx == self.ctx:
+                self.heap[base[1]].entries[const(t.attr)] = v        # field of a record made in the same process
+                return
             self.attr_stores.append((self.ctx, t))
             if self.ctx[0] == "parent":
                 raise Unsup("attribute store in the parent")
         else:
             raise Unsup(f"assignment target {type(t).__name__}")
+
+    def store_comp(self, dst, v):
+        """A[s] = [f(x) for x in X]  with as many elements as A[s] has entries on its first axis is the loop  for k: A[s][k] = f(X[k])"""
+        node, fr, itv = self.iterds[v[1]]
+        if not isinstance(node, ast.ListComp):
+            return False
+        elem, cnt, lid = self.iter_desc(v)
+        sh = self.ref_shape(dst)
+        if cnt is None or not is_tag(sh, "tuple") or len(sh) < 2 or self.snap(sh[1], record=False) != self.snap(cnt, record=False):
+            return False
+        self.fid += 1
+        lf = LoopFrame(self.fid, "for", cnt, depth=len(self.frames))
+        self.allframes[lf.fid] = lf
+        self.frames.append(lf)
+        saved = self.cur_node
+        try:
+            lv = ("lv", len(self.frames) - 1)
+            val = self.snap(elem(lv))
+            self.cur_node = saved
+            self.store(self.subref(dst, (lv,)), val)
+        finally:
+            self.frames.pop()
+        return True
 
     def _undefined_root(self, node, fr):
         """name at the root of `node` when it is defined nowhere (not a local, parameter, module name or builtin): NameError at run time"""
@@ -1221,7 +1580,26 @@ class Sim:
             if isinstance(n, ast.Break):
                 raise Unsup("loop with break")
         itv = self.ev(st.iter, fr)
+        els = self.finite_elems(itv)
+        if els is not None:
+            # a loop over a literal sequence is the sequence of its bodies
+            for e in els:
+                self.cur_node = st
+                self.assign_target(st.target, e, fr)
+                try:
+                    self.exec_block(st.body, fr)
+                except _Continue:
+                    pass
+            self.exec_block(st.orelse, fr)
+            return
         elem, cnt, lid = self.iter_desc(itv)
+        self.symbolic_loop(st, fr, cnt, lambda lv: self.assign_target(st.target, elem(lv), fr))
+        if lid is not None:
+            self.drain(lid)
+        self.exec_block(st.orelse, fr)
+
+    def symbolic_loop(self, st, fr, cnt, bind):
+        """one generic iteration of a loop with `cnt` iterations; `bind(lv)` sets the loop variable for iteration number lv"""
         self.fid += 1
         lf = LoopFrame(self.fid, "for", cnt, depth=len(self.frames))
         self.allframes[lf.fid] = lf
@@ -1229,7 +1607,7 @@ class Sim:
         lv = ("lv", len(self.frames) - 1)
         self.loops.append((lf, st, self.ctx))
         try:
-            self.assign_target(st.target, elem(lv), fr)
+            bind(lv)
             try:
                 self.exec_block(st.body, fr)
             except _Continue:
@@ -1241,9 +1619,44 @@ class Sim:
         for n in assigned_names(st):
             if n in fr.local_names:
                 fr.locals[n] = ("poison", n)
-        if lid is not None:
-            self.drain(lid)
-        self.exec_block(st.orelse, fr)
+
+    def exec_while(self, st, fr):
+        """`while i < n: ...; i += 1` with i and n otherwise untouched is `for i in range(i0, n)`"""
+        t = st.test
+        var = bound = None
+        if isinstance(t, ast.Compare) and len(t.ops) == 1:
+            l, r = t.left, t.comparators[0]
+            if isinstance(t.ops[0], ast.Lt) and isinstance(l, ast.Name):
+                var, bound = l.id, r
+            elif isinstance(t.ops[0], ast.Gt) and isinstance(r, ast.Name):
+                var, bound = r.id, l
+        if var is None or var in fr.globals_decl or var not in fr.local_names:
+            raise Unsup("while loop that is not a counted loop (`while i < n`)")
+        for n in _walk_scope(st):
+            if isinstance(n, (ast.Break, ast.Continue)):
+                raise Unsup("while loop with break / continue")
+        incs = []
+        for b in st.body:
+            one = isinstance(b, ast.AugAssign) and isinstance(b.op, ast.Add) and isinstance(b.target, ast.Name) and b.target.id == var and \
+                isinstance(b.value, ast.Constant) and b.value.value == 1 and type(b.value.value) is int
+            one = one or (isinstance(b, ast.Assign) and len(b.targets) == 1 and isinstance(b.targets[0], ast.Name) and b.targets[0].id == var and
+                          ast.dump(b.value) in (ast.dump(ast.parse(f"{var} + 1", mode="eval").body), ast.dump(ast.parse(f"1 + {var}", mode="eval").body)))
+            if one:
+                incs.append(b)
+            elif var in assigned_names(b):
+                raise Unsup("while loop whose counter is assigned inside the body")
+        if len(incs) != 1 or st.orelse:
+            raise Unsup("while loop that is not a counted loop (one `i += 1` per iteration)")
+        changed = assigned_names(st.body)
+        if any(isinstance(n, ast.Call) for n in ast.walk(bound)) or {n.id for n in ast.walk(bound) if isinstance(n, ast.Name)} & changed:
+            raise Unsup("while loop whose bound changes inside the body")
+        lo = self.snap(self.lookup(var, fr))
+        hi = self.snap(self.ev(bound, fr))
+        if lo == const(0):
+            cnt, val = hi, (lambda lv: lv)
+        else:
+            cnt, val = ("bin", "Sub", hi, lo), (lambda lv: ("bin", "Add", lo, lv))
+        self.symbolic_loop(st, fr, cnt, lambda lv: self.bind(var, val(lv), fr))
 
     def exec_stmt(self, st, fr):
         self.cur_node = st
@@ -1264,6 +1677,8 @@ class Sim:
             self.exec_if(st, fr)
         elif isinstance(st, ast.For):
             self.exec_for(st, fr)
+        elif isinstance(st, ast.While):
+            self.exec_while(st, fr)
         elif isinstance(st, ast.With):
             vals = []
             for it in st.items:
@@ -1304,8 +1719,12 @@ class Sim:
                     fr.locals.pop(t.id, None)
                 else:
                     raise Unsup("del of a subscript")
-        elif isinstance(st, (ast.FunctionDef, ast.ClassDef)):
-            fr.locals[st.name] = ("s", "<nested def %s>" % st.name)
+        elif isinstance(st, ast.FunctionDef):
+            if st.decorator_list:
+                raise Unsup("decorated nested function")
+            fr.locals[st.name] = self.closure(st, fr)
+        elif isinstance(st, ast.ClassDef):
+            fr.locals[st.name] = ("opaquecls", st.name)
         else:
             raise Unsup(f"statement {type(st).__name__}")
 
